@@ -78,6 +78,9 @@ func runC19(c *Ctx) {
 	configReadOnlyRules(c, "C19")
 	pooledEscapeRules(c, "C19")
 	sharedErrorRules(c, "C19")
+	// the pooled handshake buffers: put back once, after the last use of anything that can point into them
+	serverUpgraderRules(c, "C19")
+	dialerUpgradeRules(c, "C19")
 }
 
 func c19Globals(c *Ctx) {
